@@ -6,10 +6,14 @@ Q for exact execution, PrimFloat for bit-exact binary64); coq/C11/Spec.v defines
 reference to polygons; coq/C11/Proofs*.v prove model = spec for ALL cascades over the reals; this file
 generates cascades, runs the real module (tools/harness/c11_impl.py) and lets Coq compare
 (coq-run/C11/Corr.v): (a) binary64 model bit for bit, (b) rational model hull-wise, (c) the Reach
-decision computed from its definition against point-in-polygon tests on the implementation's polygons.
+decision computed from its definition against point-in-polygon tests on the implementation's polygons;
+(d) frames propagated to an ARRAY of distances in one call (coq/C11/Multi.v): per distance the vertices,
+bounds() and subbounds() are those of the frame propagated to that single distance, bit for bit, and the
+distance dimension(s) are kept.
 """
 import math
 import random
+import struct
 
 ID = 'C11'
 LEVEL = 'proof'
@@ -20,7 +24,8 @@ HARNESS = 'c11_impl.py'
 TRUSTED = [
     'coq/C11/Clip.v: hand-written model of propagate_times / Subframe.propagate_by / Frame.propagate_to / _chop / '
     'Frame.chop / FrameSequence.from_source_pulse, chop, propagate_to, __getitem__ / Subframe.is_regular / '
-    'Frame.bounds, subbounds (validated bit for bit against the real module on every run)',
+    'Frame.bounds, subbounds (validated bit for bit against the real module on every run); coq/C11/Multi.v: the same for '
+    'a frame propagated to an array of distances in one call (time with extra distance dims)',
     'modelled scipp/Python primitives: element-wise IEEE binary64 + - * / and comparisons of scalars, '
     'sc.constants.m_n and h (values read from scipp on every run), the angstrom*kg/(J*s) -> s/m conversion as '
     'multiplication by the double 1e-10, min/max reductions, sorted() as a stable sort by distance',
@@ -67,6 +72,23 @@ EXPLAIN = {
     'float-getitem-outcome': 'FrameSequence[distance] returns / raises differently from the model',
     'float-model-raises': 'the model raises ValueError (chopper upstream of the frame) but the implementation does not',
     'float-impl-raises': 'the implementation raises ValueError but the model does not',
+    'float-multi-outcome': 'propagate_to(array of distances) raised, did not keep the given distance array as '
+                           'Frame.distance, or the vertex times do not carry exactly the distance dims',
+    'float-multi-vertices': 'a frame propagated to an array of distances in one call differs, at some distance, from the '
+                            'binary64 model of the frame propagated to that single distance',
+    'float-multi-is_regular': 'Subframe.is_regular() of a frame propagated to an array of distances differs from the model',
+    'float-multi-bounds-shape': 'Frame.bounds() of a frame propagated to an array of distances lost the distance '
+                                'dimension(s): one global interval instead of the bounds per distance',
+    'float-multi-bounds': 'Frame.bounds() of a frame propagated to an array of distances is not, per distance, the bounds '
+                          'of the frame propagated to that single distance',
+    'float-multi-bounds-outcome': 'Frame.bounds() of a frame propagated to an array of distances returns / raises '
+                                  'differently from the model',
+    'float-multi-subbounds-shape': 'Frame.subbounds() of a frame propagated to an array of distances lost the distance '
+                                   'dimension(s)',
+    'float-multi-subbounds-values': 'Frame.subbounds() of a frame propagated to an array of distances is not, per '
+                                    'distance, the per-subframe bounds of the frame propagated to that single distance',
+    'float-multi-subbounds-outcome': 'Frame.subbounds() of a frame propagated to an array of distances returns / raises '
+                                     'differently from the model',
     'float-number-of-frames': 'the implementation\'s sequence has a different number of frames than the model',
     'q-impl-vertex-outside-model': 'a vertex of the implementation lies outside the high-precision model\'s polygons '
                                    '(one call applied to the implementation\'s own previous frame)',
@@ -202,6 +224,67 @@ def gen_case(rng, cid, forward_only=False):
             'shape': shape, 'kinds': kinds, 'n_choppers': nch}
 
 
+def f32(x):
+    return struct.unpack('f', struct.pack('f', x))[0]
+
+
+MULTI_DIMS_1D = ['distance', 'detector', 'pixel', 'd']
+MULTI_DIMS_2D = [['x', 'y'], ['distance', 'pixel'], ['bank', 'tube']]
+
+
+def gen_multi(rng, case, n, last_only=False):
+    """requests to propagate a frame of the finished sequence to an ARRAY of distances in one call
+    (FrameSequence.propagate_to / Frame.propagate_to on any frame of the sequence / on sequence[d]):
+    1..6 distances in a 1-D or 2-D array under various dimension names, downstream of every chopper, mixed
+    up- and downstream, or coinciding with chopper distances / repeated; sorted or not; float64, float32 or
+    int64 distances"""
+    ds_prog = [fh(ch['d']) for cmd in case['program'] if cmd['op'] == 'chop' for ch in cmd['choppers']]
+    ds_prog += [fh(cmd['d']) for cmd in case['program'] if cmd['op'] == 'prop']
+    dmax = max(ds_prog, default=0.0)
+    out = []
+    for _ in range(n):
+        m = {}
+        entry = rng.choices(['seq', 'frame', 'item'], [35, 45, 20])[0]
+        items = [h for h in case['items'] if fh(h) >= (dmax if last_only else 0.0)]
+        if entry == 'item' and not items:
+            entry = 'frame'
+        m['entry'] = entry
+        if entry == 'item':
+            m['item'] = rng.choice(items)
+        elif entry == 'frame':
+            m['base_frac'] = 1.0 if last_only else rng.choice([1.0, rng.random(), rng.random()])
+        if rng.random() < 0.85:
+            m['dims'] = [rng.choice(MULTI_DIMS_1D)]
+            m['shape'] = [rng.choice([1, 2, 3, 3, 4, 5])]
+        else:
+            m['dims'] = list(rng.choice(MULTI_DIMS_2D))
+            m['shape'] = list(rng.choice([[2, 2], [1, 3], [2, 1], [3, 2]]))
+        nd = 1
+        for k in m['shape']:
+            nd *= k
+        kind = rng.choices(['downstream', 'mixed', 'ties'], [60, 22, 18])[0]
+        if kind == 'downstream':
+            vals = [dmax + rng.choice([rng.uniform(0.0, 40.0), float(rng.randint(0, 40)), round(rng.uniform(0, 40), 1)])
+                    for _ in range(nd)]
+        elif kind == 'mixed':
+            vals = [rng.uniform(0.0, dmax + 20.0) for _ in range(nd)]
+        else:
+            pool = (ds_prog or [0.0]) + [dmax, dmax + float(rng.randint(1, 30))]
+            vals = [rng.choice(pool) for _ in range(nd)]
+        if rng.random() < 0.5:
+            vals.sort()
+        dtype = rng.choices(['float64', 'float32', 'int64'], [75, 15, 10])[0]
+        if dtype == 'float32':
+            vals = [f32(v) for v in vals]
+        elif dtype == 'int64':
+            vals = [float(math.ceil(v)) if kind == 'downstream' else float(round(v)) for v in vals]
+        m['dtype'] = dtype
+        m['kind'] = kind
+        m['dists'] = [hx(v) for v in vals]
+        out.append(m)
+    return out
+
+
 def is_forward(resolved_prog):
     """no propagate_to back upstream: every frame of the sequence is produced by forward propagation"""
     cur = 0.0
@@ -268,6 +351,29 @@ def c_item(it):
     return f'mkitem {cf(fh(it["d"]))} (Some ({cf(fh(it["fd"]))}, {c_polys(it["subframes"])}, {c_bools(it["regular"])}))'
 
 
+def c_multi(m):
+    ds = clist([cf(fh(d)) for d in m['dists']])
+    item = f'(Some {cf(fh(m["item"]))})' if m['entry'] == 'item' else 'None'
+    idx = f'{m.get("base", 0)}%nat'
+    ok = (m['error'] is None and m.get('dist_kept') and m.get('time_dims_ok') and not isinstance(m.get('regular'), dict))
+    if not ok:
+        return f'mkmulti {idx} {item} {ds} false [] [] true None 0%nat true []'
+    b = m['bounds']
+    if 'error' in b:
+        bshape, bounds = 'true', 'None'
+    else:
+        bshape = 'true' if b['dist_dims'] else 'false'
+        bounds = '(Some ' + clist([c_f4(v) for v in b['values']]) + ')'
+    sb = m['subbounds']
+    if 'error' in sb:
+        cls, sshape, sub = ('1%nat' if sb['error'] == 'NotImplementedError' else '2%nat'), 'true', '[]'
+    else:
+        cls, sshape = '0%nat', ('true' if sb['dist_dims'] else 'false')
+        sub = clist([clist([c_f4(v) for v in per]) for per in sb['values']])
+    polys = clist([c_polys(per) for per in m['polys']])
+    return f'mkmulti {idx} {item} {ds} true {polys} {c_bools(m["regular"])} {bshape} {bounds} {cls} {sshape} {sub}'
+
+
 def make_probes(rng, case, res, n_neutrons, alpha):
     """probe points for the Reach oracle: random neutrons of the source rectangle (plus its corners and edges)
     and, per implementation polygon, the centroid and every vertex nudged inwards / outwards"""
@@ -308,7 +414,8 @@ def make_probes(rng, case, res, n_neutrons, alpha):
 def case_term(rng, case, res, n_neutrons, alpha):
     probes, n_pts = make_probes(rng, case, res, n_neutrons, alpha) if not res['error'] else ('[]', 0)
     t = (f'mkcase {c_f4(case["rect"])} {c_prog(res["program"])} {"true" if res["error"] else "false"} '
-         f'{clist([c_frame(f) for f in res["frames"]])} {clist([c_item(i) for i in res["items"]])} {probes}')
+         f'{clist([c_frame(f) for f in res["frames"]])} {clist([c_item(i) for i in res["items"]])} '
+         f'{clist([c_multi(m) for m in res.get("multi", []) if "harness_error" not in m])} {probes}')
     return t, n_pts
 
 
@@ -345,8 +452,44 @@ def irregular_report(ctx, case, res, where):
 
 
 def run_cases(ctx, cases):
-    res = ctx.run_impl(HARNESS, {'cases': [{k: c[k] for k in ('id', 'rect', 'program', 'items')} for c in cases]})
+    res = ctx.run_impl(HARNESS, {'cases': [{k: c[k] for k in ('id', 'rect', 'program', 'items', 'multi', 'single') if k in c}
+                                           for c in cases]})
     return res
+
+
+def multi_base_distance(r, m):
+    return fh(m['item']) if m['entry'] == 'item' else fh(r['frames'][m['base']]['d'])
+
+
+def multi_irregular_report(ctx, case, r):
+    """the last sentence of the property for a frame propagated DOWNSTREAM to several distances in one call:
+    every subframe regular, subbounds() returns (evaluated on the implementation alone)"""
+    for mi, m in enumerate(r.get('multi', [])):
+        if 'harness_error' in m or m['error'] or isinstance(m.get('regular'), dict):
+            continue
+        base_d = multi_base_distance(r, m)
+        if any(fh(d) < base_d for d in m['dists']):
+            continue
+        sb = m['subbounds']
+        bad = (not all(m['regular'])) or (m['polys'] and m['polys'][0] and sb.get('error') == 'NotImplementedError')
+        if bad:
+            ctx.violation('subbounds-multi:irregular-downstream',
+                          f'forward cascade, frame at {base_d} m propagated downstream to {[fh(d) for d in m["dists"]]} m in one '
+                          f'call: is_regular() -> {m["regular"]}, subbounds() -> {sb.get("error", "returned")}',
+                          {'rect': case['rect'], 'program': r['program'], 'items': case['items'],
+                           'multi': [multi_request(m)], 'kind': 'program'})
+            return True
+    return False
+
+
+def multi_request(m):
+    """the request that reproduces an observed multi-distance propagation"""
+    q = {'entry': m['entry'], 'dims': m['dims'], 'shape': m['shape'], 'dists': m['dists'], 'dtype': m.get('dtype', 'float64')}
+    if m['entry'] == 'item':
+        q['item'] = m['item']
+    elif m['entry'] == 'frame':
+        q['base'] = m['base']
+    return q
 
 
 def correspondence(ctx):
@@ -355,12 +498,17 @@ def correspondence(ctx):
     n_cases = 150 if quick else 5000
     n_sweep = 300 if quick else 6000
     cases = [gen_case(rng, i) for i in range(n_cases)]
+    mrng = random.Random(ctx.seed + 23)
+    for c in cases:
+        c['multi'] = gen_multi(mrng, c, 2)
     res = run_cases(ctx, cases)
     mn, h = res['constants']['m_n'], res['constants']['h']
     terms, kept = [], []
     n_probe = 0
     stats = {'shapes': {}, 'window_kinds': {}, 'errors': {}, 'subframes': 0, 'frames': 0, 'irregular_subframes': 0,
-             'getitem': 0, 'forward_cases': 0}
+             'getitem': 0, 'forward_cases': 0,
+             'multi': {'calls': 0, 'distances': 0, 'entries': {}, 'kinds': {}, 'dtypes': {}, 'ndim': {}, 'upstream_of_base': 0,
+                       'with_subframes': 0, 'subbounds_raised': 0}}
     prng = random.Random(ctx.seed + 7)
     for c, r in zip(cases, res['cases']):
         if 'harness_error' in r:
@@ -383,9 +531,24 @@ def correspondence(ctx):
         stats['subframes'] += sum(len(f['subframes']) for f in r['frames'])
         stats['getitem'] += len(r['items'])
         stats['irregular_subframes'] += sum(1 for f in r['frames'] for b in f['regular'] if not b)
+        ms = stats['multi']
+        for q, m in zip(c['multi'], r.get('multi', [])):
+            if 'harness_error' in m:
+                ctx.violation('harness-case-error', f'the harness could not run a multi-distance propagation of case {c["id"]}: '
+                              f'{m["harness_error"]}', {'case': c, 'error': m['harness_error']}, found_input=False)
+                continue
+            ms['calls'] += 1
+            ms['distances'] += len(m['dists'])
+            for key, v in (('entries', m['entry']), ('kinds', q['kind']), ('dtypes', m['dtype']), ('ndim', str(len(m['dims'])))):
+                ms[key][v] = ms[key].get(v, 0) + 1
+            if m['error'] is None:
+                ms['upstream_of_base'] += any(fh(d) < multi_base_distance(r, m) for d in m['dists'])
+                ms['with_subframes'] += bool(m['polys'] and m['polys'][0])
+                ms['subbounds_raised'] += 'error' in m['subbounds']
         if r['error'] is None and is_forward(r['program']):
             stats['forward_cases'] += 1
             irregular_report(ctx, c, r, list(enumerate(r['frames'])))
+            multi_irregular_report(ctx, c, r)
     header = ('From Coq Require Import QArith ZArith String List Bool PrimFloat.\n'
               'From Verif.C11 Require Import Clip Inst Report.\n'
               'From Run Require Import Corr.\nImport ListNotations.\nOpen Scope float_scope.\n'
@@ -401,6 +564,7 @@ def correspondence(ctx):
         text = '; '.join(EXPLAIN.get(w, 'the implementation\'s frames differ from the model / the Reach oracle') for w in why.split('+'))
         ctx.violation(why, f'case {c["id"]} ({c["shape"]}, {c["n_choppers"]} choppers): {why} — {text}',
                       {'rect': c['rect'], 'program': r['program'], 'items': c['items'], 'reason': why,
+                       'multi': [multi_request(m) for m in r.get('multi', []) if 'harness_error' not in m],
                        'frames': r['frames'], 'kind': 'program'})
     # ---- the last sentence of the property evaluated on the implementation alone (no model involved):
     # forward cascades with many cuts of the horizontal (constant-wavelength) edges
@@ -423,7 +587,13 @@ def correspondence(ctx):
                 'time +-1 ulp / adjacent windows sharing an end / reversed), programs one-chop, chop-prop, chop-prop-chop, chop-chop, '
                 'propagate-back-then-chop, upstream chopper (ValueError); 2-4 __getitem__ distances; non-trivial = no exception and '
                 'at least one subframe survives in a chopped frame. Per case Coq compares every frame, is_regular, bounds, subbounds, '
-                '__getitem__ bit for bit with the PrimFloat model, the Q model hull-wise (1e-11), and decides Reach for the probes.',
+                '__getitem__ bit for bit with the PrimFloat model, the Q model hull-wise (1e-11), and decides Reach for the probes. '
+                'After every program that does not raise, 2 propagations to an ARRAY of distances in one call '
+                '(FrameSequence.propagate_to / Frame.propagate_to on a random frame of the sequence / on sequence[d]; 1..6 distances, '
+                '1-D (85%) or 2-D arrays under several dimension names; all downstream / mixed up- and downstream / coinciding with '
+                'chopper distances and repeated; sorted or not; float64 / float32 / int64): per distance Coq compares vertices, '
+                'is_regular, bounds(), subbounds() bit for bit with the model of the frame propagated to that single distance and '
+                'requires the distance dims to be kept; forward cases: downstream multi-distance frames must be regular.',
         'samples': [{'rect': c['rect'], 'program': r['program'], 'n_frames': len(r['frames'])} for c, r in kept[:3]],
         'probe_points': n_probe,
         'stats': stats,
@@ -437,9 +607,15 @@ def correspondence(ctx):
 def search(ctx, broken):
     """an obligation broke: evaluate the property's own statement on the implementation, without the model —
     transmitted <=> inside a subframe (float arithmetic, margins 1e-7), wavelength band, order independence,
-    two-step propagation, regularity."""
+    two-step propagation, regularity; and, for the last frame propagated to an ARRAY of distances in one call, per
+    distance: bounds() / subbounds() are the extent of the polygons of the frame propagated to that distance alone,
+    enclose every transmitted neutron and keep the distance dimension(s)."""
     rng = random.Random(ctx.seed + 3)
     cases = [gen_case(rng, 200000 + i, forward_only=True) for i in range(200)]
+    mrng = random.Random(ctx.seed + 29)
+    for c in cases:
+        c['multi'] = gen_multi(mrng, c, 2, last_only=True)
+        c['single'] = True
     res = run_cases(ctx, cases)
     mn, h = fh(res['constants']['m_n']), fh(res['constants']['h'])
     alpha = mn / h * 1e-10
@@ -489,9 +665,86 @@ def search(ctx, broken):
                               {'rect': c['rect'], 'program': r['program'], 'neutron': [t0, lam], 'kind': 'program'})
                 found.append(c)
                 break
-        if irregular_report(ctx, c, r, list(enumerate(r['frames']))):
+        if irregular_report(ctx, c, r, list(enumerate(r['frames']))) or multi_irregular_report(ctx, c, r):
             found.append(c)
+        # ---- the last frame propagated to several distances in one call
+        neutrons = []
+        for _ in range(60):
+            t0, lam = rng.uniform(tmin, tmax), rng.uniform(wmin, wmax)
+            m = min((t0 - tmin) / st, (tmax - t0) / st, (lam - wmin) / wmax, (wmax - lam) / wmax)
+            for ch in chs:
+                arr = t0 + alpha * lam * fh(ch['d'])
+                m = min(m, max([min(arr - fh(a), fh(b) - arr) for a, b in ch['windows']], default=-st) / st)
+            if m > 1e-6:
+                neutrons.append((t0, lam))
+        for mu in r.get('multi', []):
+            bad = multi_statement(mu, neutrons, alpha, st, wmax)
+            if bad:
+                ctx.violation(bad[0], f'last frame ({d} m, {len(polys)} subframes) propagated to '
+                              f'{[fh(x) for x in mu["dists"]]} m (dims {mu["dims"]}) in one call via '
+                              f'{"FrameSequence" if mu["entry"] == "seq" else "Frame"}.propagate_to: {bad[1]}',
+                              {'rect': c['rect'], 'program': r['program'], 'items': c['items'],
+                               'multi': [multi_request(mu)], 'kind': 'program'})
+                found.append(c)
+                break
     return found
+
+
+def close(a, b, scale):
+    return abs(a - b) <= 1e-12 * max(abs(a), abs(b)) + 1e-15 * scale
+
+
+def multi_statement(mu, neutrons, alpha, st, sw):
+    """Frame.bounds() / subbounds() of a frame propagated to several distances, against the property's statement,
+    using only the implementation: per distance d_k they must be the extent of the subframe polygons of the frame
+    propagated to d_k ALONE (scalar distance), enclose the arrival (t0 + alpha*lambda*d_k, lambda) of every neutron
+    transmitted by all choppers, and the result must carry the distance dims.  Returns (key, text) or None."""
+    if 'harness_error' in mu or mu.get('error'):
+        return ('multi:propagate-raises', f'raised {mu.get("error") or mu.get("harness_error")}')
+    if not (mu['dist_kept'] and mu['time_dims_ok']):
+        return ('multi:layout', 'Frame.distance is not the given array or the vertex times do not carry its dims')
+    single = mu['single']
+    n_sub = len(single[0]['subframes']) if single else 0
+    b, sb = mu['bounds'], mu['subbounds']
+    if n_sub == 0:
+        return None
+    if 'error' in b:
+        return ('bounds-multi:raises', f'bounds() raised {b["error"]}: {b.get("text")}')
+    if not b['dist_dims']:
+        return ('bounds-multi:distance-dimension-lost', 'bounds() has no distance dimension: one interval '
+                f'{[fh(x) for x in b["values"][0]]} for all distances instead of the bounds per distance')
+    for k, (dk, one) in enumerate(zip(mu['dists'], single)):
+        vs = [(fh(t), fh(w)) for sf in one['subframes'] for t, w in sf]
+        env = [min(v[0] for v in vs), max(v[0] for v in vs), min(v[1] for v in vs), max(v[1] for v in vs)]
+        got = [fh(x) for x in b['values'][k]]
+        if not all(close(g, e, sc) for g, e, sc in zip(got, env, (st, st, sw, sw))):
+            return ('bounds-multi:not-the-extent-at-this-distance',
+                    f'bounds() at {fh(dk)} m (index {k}) = {got}, but the polygons of the frame propagated to {fh(dk)} m '
+                    f'alone extend over {env}')
+        for (t0, lam) in neutrons:
+            arr = t0 + alpha * lam * fh(dk)
+            if not (got[0] - 1e-9 * st <= arr <= got[1] + 1e-9 * st and got[2] - 1e-9 * sw <= lam <= got[3] + 1e-9 * sw):
+                return ('bounds-multi:transmitted-neutron-outside',
+                        f'neutron (t0={t0}, lambda={lam}) passes every chopper and is at {fh(dk)} m at t={arr}, outside '
+                        f'bounds() at that distance {got}')
+    if 'error' in sb:
+        # whether subbounds() may raise (irregular joint frame) is the business of multi_irregular_report
+        return None
+    if not sb['dist_dims']:
+        return ('subbounds-multi:distance-dimension-lost', 'subbounds() has no distance dimension')
+    for k, (dk, one) in enumerate(zip(mu['dists'], single)):
+        if len(sb['values'][k]) != len(one['subframes']):
+            return ('subbounds-multi:number-of-subframes', f'subbounds() at {fh(dk)} m lists {len(sb["values"][k])} subframes, '
+                    f'the frame has {len(one["subframes"])}')
+        for i, sf in enumerate(one['subframes']):
+            vs = [(fh(t), fh(w)) for t, w in sf]
+            env = [min(v[0] for v in vs), max(v[0] for v in vs), min(v[1] for v in vs), max(v[1] for v in vs)]
+            got = [fh(x) for x in sb['values'][k][i]]
+            if not all(close(g, e, sc) for g, e, sc in zip(got, env, (st, st, sw, sw))):
+                return ('subbounds-multi:not-the-extent-at-this-distance',
+                        f'subbounds() of subframe {i} at {fh(dk)} m (index {k}) = {got}, but that subframe of the frame '
+                        f'propagated to {fh(dk)} m alone extends over {env}')
+    return None
 
 
 def replay(ctx, obj):
@@ -500,7 +753,8 @@ def replay(ctx, obj):
     print(json.dumps({k: rp[k] for k in rp if k not in ('frames',)}, indent=1)[:4000])
     if 'program' not in rp:
         return 0
-    case = {'id': 0, 'rect': rp['rect'], 'program': rp['program'], 'items': rp.get('items', [])}
+    case = {'id': 0, 'rect': rp['rect'], 'program': rp['program'], 'items': rp.get('items', []),
+            'multi': rp.get('multi', []), 'single': True}
     res = ctx.run_impl(HARNESS, {'cases': [case]})['cases'][0]
     print('re-run on the implementation: error =', res.get('error'), res.get('harness_error', ''))
     for i, fr in enumerate(res.get('frames', [])):
@@ -508,5 +762,24 @@ def replay(ctx, obj):
               f'subbounds -> {fr["subbounds"]["error"] if isinstance(fr["subbounds"], dict) else "ok"}')
         for sf in fr['subframes']:
             print('   times', [fh(t) for t, _ in sf], 'wavelengths', [fh(w) for _, w in sf])
-    print('required: every subframe of a forward cascade regular (subbounds returns); frames = Reach (see coq/C11/Spec.v)')
+    for m in res.get('multi', []):
+        if 'harness_error' in m or m.get('error'):
+            print(' multi-distance propagation:', m)
+            continue
+        print(f' {m["entry"]} propagate_to({[fh(d) for d in m["dists"]]} m, dims {m["dims"]}, {m["dtype"]}) from frame '
+              f'{m.get("base", m.get("item"))}: is_regular = {m["regular"]}')
+        for name in ('bounds', 'subbounds'):
+            b = m[name]
+            if 'error' in b:
+                print(f'   {name}() raised {b["error"]}')
+                continue
+            print(f'   {name}() keeps the distance dims: {b["dist_dims"]}')
+            for k, one in enumerate(m['single']):
+                o = one[name]
+                conv = (lambda v: [fh(x) for x in v]) if name == 'bounds' else (lambda v: [[fh(x) for x in q] for q in v])
+                print(f'     at {fh(m["dists"][k])} m: {conv(b["values"][k])}   propagated to that distance alone: '
+                      f'{o["error"] if isinstance(o, dict) else conv(o)}')
+    print('required: every subframe of a forward cascade regular (subbounds returns); frames = Reach (see coq/C11/Spec.v); '
+          'bounds() / subbounds() of a frame propagated to several distances in one call = per distance those of the frame '
+          'propagated to that distance alone, with the distance dims kept')
     return 0
